@@ -1,4 +1,5 @@
 From Coq Require Import String.
+From Gemato Require Import Py.PyLit.
 From Gemato Require Import Py.PyStr Exec.Sx Exec.Run.
 
 (* one request: (cmd arg ...) *)
